@@ -1,5 +1,6 @@
 import TcheranVerif.Proofs.Undo
 import TcheranVerif.Model.Eval
+import TcheranVerif.Proofs.GameInv
 /-!
 # C03 — the position key depends on the position alone
 
@@ -147,6 +148,16 @@ theorem differ_two_components (h k1 k2 : BB) (h1 : k1 ∈ allKeys) (h2 : k2 ∈ 
 example : Sync theCfg (Game.fromState theCfg Board.empty .white Rights.none none 0 0) :=
   sync_fromState theCfg Board.empty consistent_empty _ _ _ _ _
 
+/-- **key_along_game**: at every position of every game of legal moves from a position whose key is the
+key computed from scratch, `make_move` answers and the carried key is again the key computed from scratch
+for the reached position (no hypothesis on the individual moves beyond their legality) -/
+theorem key_along_game (c : Cfg) (g : Game) (ms : List Move) (pos' : Rules.Pos) (hs : Sync c g)
+    (h : GInv (Rules.ofGame g)) (hp : LegalPath (Rules.ofGame g) ms pos') :
+    ∃ g', makeMoves c g ms = some g' ∧ Rules.ofGame g' = pos' ∧
+      g'.zobrist = fullHash c g'.board g'.player g'.rights g'.ep := by
+  obtain ⟨g', h1, h2, h3⟩ := game_sync c g ms pos' hs h hp
+  exact ⟨g', h1, h2, h3.key⟩
+
 end Tcheran.Props.C03
 #print axioms Tcheran.Props.C03.hash_is_fullHash
 #print axioms Tcheran.Props.C03.sync_keyOk
@@ -155,6 +166,7 @@ end Tcheran.Props.C03
 #print axioms Tcheran.Props.C03.key_after_move
 #print axioms Tcheran.Props.C03.key_after_null
 #print axioms Tcheran.Props.C03.key_along_path
+#print axioms Tcheran.Props.C03.key_along_game
 #print axioms Tcheran.Props.C03.transposition
 #print axioms Tcheran.Props.C03.distinctB_nodup
 #print axioms Tcheran.Props.C03.nodup_of_map
